@@ -45,3 +45,81 @@ MANIFEST_TEXT = {
     "C04": {"level_text": "seeded exploration against the reference model: all sinks of the simulated OS are watched; exactly one record with the model's framing at the configured sink, handed to the simulated kernel before the EXEC event (bytes left in a stdio buffer at a successful exec count as lost), nothing anywhere else, nothing on drop/empty",
             "level_note": _ASSUME},
 }
+
+CHECKS.update({
+    "C02": {
+        "variants": ["asan-ts", "asan-nots"], "level": "exploration", "claims_sanitizer": True,
+        "quick": T(50000, 60), "thorough": T(2000000, 900),
+        "rule": "one run = generated world + config bytes (structured generator, byte-level mutation of it, or boundary-directed: tag lengths 95..900, message = limit-1/0/+1, output ':' forms, short syslog names, huge numbers, ident/path near their limits, 1 MiB limits, lines around 1024 bytes) + 1-2 wrapped execs under ASan+UBSan; "
+                "oracle = sanitizer report, fatal signal, step cap / watchdog, exec not reached; non-trivial = non-empty config; distinct = (options present, tag-count bucket, boundary probe, env/tty class, size bucket)",
+        "probes": ["tag_ge_100", "msg_eq_limit", "environ_null", "limit_1mib", "line_ge_1024", "output_colon", "short_syslog_name", "huge_number", "ident_near_256", "path_near_max"],
+        "assumptions": ["no schedule or fault dimension: seeded generation against a sanitizer oracle inside the simulated OS (weak fit, DESIGN 3/C02)"],
+    },
+    "C05": {
+        "variants": ["asan-ts"], "level": "exploration",
+        "quick": T(20000, 45), "thorough": T(600000, 600),
+        "rule": "one run = format built from literals, snoopy_literal/env/cmdline/filename tags with values of chosen lengths (value i consists of letter 'a'+i), unknown/empty/unterminated/failing tags, both limits drawn around the produced lengths; record at a file (or devlog ident / path template) compared with the reference expansion when it fits, bounds otherwise; "
+                "non-trivial = at least one tag; distinct = (token-class string of the format, binding limit, output)",
+        "probes": ["total_eq_logmax", "total_eq_logmax_plus1", "value_eq_dsmax", "value_eq_dsmax_plus1", "unknown", "unterminated", "failing", "ident", "path_template"],
+        "assumptions": ["no schedule or fault dimension (weak fit)"],
+    },
+    "C06": {
+        "variants": ["asan-ts", "asan-nots"], "level": "exploration",
+        "quick": T(6000, 45), "thorough": T(200000, 600),
+        "rule": "one run = history of 2-10 (thorough: 2-30) failing execs in one simulated process, argv shapes NULL / {NULL} / hidden / short / long / thousands, execv and execve mixed, earlier calls may carry I/O faults; every string of call i carries marker i; "
+                "non-trivial = at least 2 calls; distinct = shape sequence of the history",
+        "probes": ["long_then_short", "null_after_long", "truncation"],
+    },
+    "C07": {
+        "variants": ["asan-ts"], "level": "exploration",
+        "quick": T(30000, 45), "thorough": T(400000, 600),
+        "rule": "one run = a chain, a seeded permutation and a seeded duplication of it, each logged once in the same world; the first 22608 seeds enumerate all chains of <= 3 elements over a 12-spec alphabet x 12 worlds (3 real uids x tty yes/no x listed ancestor yes/no), later seeds draw chains of 0-20 elements from the grammar in generated worlds; "
+                "non-trivial = at least one known filter; distinct = (per-element filter+result string, world class, decision)",
+        "probes": ["exhaustive_alphabet", "unknown_between_known", "drop_by_later_element", "empty_elements"],
+        "seed": 0,
+    },
+    "C08": {
+        "variants": ["asan-ts"], "level": "exploration",
+        "quick": T(30000, 45), "thorough": T(800000, 600),
+        "rule": "one run = INI file from the supported grammar (sections, = and : separators, comment lines, inline comments, quotes, BOM, continuation lines, duplicate keys, other sections, unknown keys, CR-LF) with per-option well-formed values, near misses and garbage, numbers 0..10^15 with k/m; "
+                "the library's own option-value API (what snoopyctl conf prints) is compared with the reference INI+option model, then either a round trip (reported values written back, reported again) or a logged exec whose record must be the model's; non-trivial = >= 1 [snoopy] option assigned; distinct = (syntax features, output, limit classes, facility.level, roundtrip)",
+        "probes": ["duplicate-key", "continuation", "bom", "inline-comment", "quotes", "garbage-bool", "number_ge_2_31", "roundtrip", "other-section", "unknown-key"],
+        "assumptions": ["no schedule or fault dimension (weak fit)"],
+    },
+    "C12": {
+        "variants": ["asan-ts"], "level": "exploration",
+        "quick": T(20000, 45), "thorough": T(500000, 600),
+        "rule": "one run = generated simulated process state (independent real/effective uid/gid, name tables with gaps, session, ancestor chain, tty none/closed/present with owner, login fallbacks, environment incl. TZ, cwd, host, instant) + two execs whose formats list every data source named in the statement inside <name=...> delimiters; "
+                "each text compared with the value derived from the world; distinct = vector of world classes",
+        "probes": ["all_ids_distinct", "id_without_name", "no_tty", "ebadf", "deleted_cwd", "tz_non_utc"],
+        "assumptions": ["the kernel is a stub: this decides that each data source asks the right question and renders the answer, not that Linux answers correctly"],
+    },
+    "C14": {
+        "variants": ["asan-ts"], "level": "exploration",
+        "quick": T(20000, 45), "thorough": T(500000, 600),
+        "rule": "one run = real uid from {0, small, ~2^16, 2^31-1, 2^31, 2^32-2} with unrelated effective uid, a list of 1-200 decimal uids with near misses (uid+-1, decimal prefix/suffix, uid*10, the euid) and the uid at a seeded position or absent; only_uid:L, exclude_uid:L and only_root each judged, and only_uid/exclude_uid must disagree; "
+                "distinct = (uid class, list-size bucket, match position, uid==euid)",
+        "probes": ["uid_ge_2_31", "match_last_of_many", "near_miss_only"],
+        "assumptions": ["no schedule or fault dimension (weak fit); the simulated getuid() is what makes 2^32-2 and uid != euid reachable"],
+    },
+    "C15": {
+        "variants": ["asan-ts"], "level": "exploration",
+        "quick": T(20000, 45), "thorough": T(500000, 600),
+        "rule": "one run = simulated ancestor chain of depth 1-12 with awkward names (spaces, parentheses, 15 bytes, prefixes of each other), optionally an unreadable or vanished /proc/<pid>/stat at depth k, and a list of 1-50 names (duplicates, empty items) containing an ancestor's name, only the process's own name, a prefix/extension near miss, or none; "
+                "distinct = (depth, mode, match position, failure depth)",
+        "probes": ["match_deep", "self_only", "unreadable_before_match", "name_with_paren"],
+    },
+})
+MANIFEST_TEXT.update({
+    "C02": {"level_text": "seeded generation of configuration bytes, exec inputs and simulated process states against a sanitizer oracle: the production library runs in-process under AddressSanitizer+UndefinedBehaviorSanitizer in both the thread-safe and the non-thread-safe build; a report, fatal signal, step-cap/watchdog hit or an exec that is never reached is a violation", "level_note": _ASSUME + "; allocation failure and invalid pointers are outside the domain"},
+    "C05": {"level_text": "operation-by-operation refinement against the reference expansion (DESIGN A.4) with boundary-directed limits and value lengths; exact equality when the expansion fits, the two length bounds otherwise; also the syslog ident (255) and file path template (PATH_MAX-1)", "level_note": _ASSUME},
+    "C06": {"level_text": "seeded histories of calls in one simulated process (both builds): each record equals the model for its own call and never contains the marker of an earlier call; truncated cmdline must be a prefix", "level_note": _ASSUME},
+    "C07": {"level_text": "exhaustive for all chains of <= 3 elements over a 12-spec alphabet in 12 worlds, seeded beyond: logged iff every known filter passes in the model, same decision for a permutation and a duplication, no byte at any sink on drop, pass-through intact", "level_note": _ASSUME},
+    "C08": {"level_text": "refinement of the library's option-value API and of the logged record against the reference INI/option model over generated files; round trip through the reported values", "level_note": _ASSUME + "; lines beyond the parser's 1023-byte limit belong to C02's domain only"},
+    "C12": {"level_text": "every data source named in the statement is compared with the value computed from the simulated process state, over generated states a root test machine is never in (uid != euid != gid != egid, ids without names, any tty owner, any ancestor chain, any instant and TZ)", "level_note": _ASSUME},
+    "C14": {"level_text": "pass/drop of only_uid, exclude_uid, only_root compared with exact membership of the simulated real uid, for boundary uids, near-miss lists and unrelated effective uids; complementarity checked directly", "level_note": _ASSUME},
+    "C15": {"level_text": "pass/drop of exclude_spawns_of compared with the reference walk over the simulated /proc tree (proper ancestors only, unreadable => pass)", "level_note": _ASSUME},
+})
+for _e in list(NOT_APPLICABLE):
+    if _e["property_id"] in CHECKS:
+        NOT_APPLICABLE.remove(_e)
